@@ -126,6 +126,41 @@ CHECKS["C07"] = dict(
           "PROT_NONE guard page so that reads beyond the declared length fault."),
     technique="Lean 4 proof by induction over the block loop of a hand-written model, generic in the permutation + correspondence",
     design="§4 C07", note=NOTE_BASE)
+NOTE_NTT = (NOTE_BASE + " Model/Ntt.lean is a HAND model (sequential, functional, no threads, no caller scratch buffer, Nat index arithmetic exact for "
+            "log2 n <= 30): its tie to ntt_goldilocks.cpp is the differential campaign only (thread counts 1,2,3,5,16; with/without buffer; dst modes).")
+CHECKS["C03"] = dict(
+    text=("Machine-checked theorems (Props/C03.lean, Lemmas/Ntt*.lean 3.2 kLOC) about the hand model Model/Ntt.lean, which mirrors NTT_iters / "
+          "reversePermutation / the phase schedule / column blocks loop by loop over the GENERATED scalar ops and root table: for every "
+          "n = 2^d <= maxDomain (d <= 32), every ncols >= 1, every nphase, nblock (clamped as the code clamps), every destination mode "
+          "(same/other/NULL) and every input, ntt returns ok and out[k][c] = sum_j in[j][c]*w_d^(jk) in ZMod p, with w_d the library's root "
+          "(proved primitive of order 2^d); the source is unchanged for a distinct destination; size 0 / ncols 0 are no-ops; the 'never needed "
+          "copy' assert is unreachable (the D6 parity argument). Tie: correspondence model vs compiled code vs an O(n^2) reference over an "
+          "exhaustive small-shape grid + sampled shapes to 2^10 (thorough 2^12), threads 1,2,3,5,16, exact-size redzoned buffers, forked."),
+    technique="Lean 4 proof by loop invariants / refinement of a hand-written model to the DFT specification + differential correspondence",
+    design="§4 C03", note=NOTE_NTT)
+CHECKS["C04"] = dict(
+    text=("Machine-checked theorems (Props/C04.lean) on the same model: intt returns out[k][c] = n^-1 * sum_j in[j][c]*w_d^(-jk) for the same "
+          "configuration space; INTT(NTT(x)) = x and NTT(INTT(x)) = x as field elements with independent nphase/nblock/dst mode in the two "
+          "calls; NULL destination means in place; source unchanged; no-ops. Tie: round-trip and single-call correspondence campaign."),
+    technique="Lean 4 proof (refinement to the inverse DFT, orthogonality of roots) over a hand-written model + differential correspondence",
+    design="§4 C04", note=NOTE_NTT)
+CHECKS["C05"] = dict(
+    text=("Machine-checked theorems (Props/C05.lean): for every N = 2^dn <= N_ext = 2^de <= 2^32 (N = 1 and N_ext = N included), in place or "
+          "not, every nphase/nblock: extendPol returns ok, N_ext rows, and for each column the unique polynomial f of degree < N with "
+          "f(w_dn^j) = in[j] satisfies out[k] = f(7*w_de^k) (coset shift 7 = the library's SHIFT, proved); uniqueness of the interpolant. "
+          "The pinned tree violated this (D8: even effective nphase hit assert(0) 'not implemented'; found with replay, repaired by a fix: "
+          "commit that implements the zero-extending in-place bit reversal, which the theorem now covers). Tie: correspondence vs code vs LDE reference."),
+    technique="Lean 4 proof (refinement to low-degree extension on the coset) over a hand-written model + differential correspondence",
+    design="§4 C05", note=NOTE_NTT)
+CHECKS["C19"] = dict(
+    text=("Machine-checked theorems (Props/C19.lean): for EVERY list of calls (NTT / INTT / extendPol with arbitrary arguments, aborting calls "
+          "included) on one object, the k-th result equals the result of the same call on a freshly constructed object "
+          "(C19_history_eq_fresh); the only mutable state is the extendPol coefficient cache, which keeps the invariant 'absent or computeR of "
+          "the N it is keyed with'; NTT/INTT neither read nor change it. The pinned tree violated this (D9: stale cache after a change of N; "
+          "repaired by a fix: commit). Tie: histories of up to 6 calls on shared vs fresh objects, model vs code."),
+    technique="Lean 4 proof by invariant over call histories (refinement: shared object = fresh object) + differential correspondence of histories",
+    design="§4 C19", note=NOTE_NTT)
+
 CHECKS["C17"] = dict(
     text=("Machine-checked theorems: (1) Props/C17Gen.lean, GENERATED on every run — for each of the 160 copy/add/sub/mul "
           "_batch/_avx/_avx512 overloads a structural equality between the body translated from the current source and "
